@@ -11,6 +11,9 @@ From RV Require Import Proofs.Collect.
 From RV Require Import Proofs.Closure.
 From RV Require Import Proofs.Writer.
 From RV Require Import Proofs.WriteNum.
+From RV Require Import Gen.XmlEscape.
+From RV Require Import Model.XmlEscape.
+From RV Require Import Proofs.XmlEscape.
 From Coq Require Import NArith ZArith QArith Qabs List Bool.
 Import ListNotations.
 Local Open Scope N_scope.
@@ -52,8 +55,8 @@ Print Assumptions C07_refs_closed_from_C05.
 Definition f10_root : group :=
   G 0 false None None []
     [NGroup (G 0 false None None
-       [FD 1 5 [PR 11 0 7 [] (Some (G 0 false None None [] [NGroup (G 0 false None None [] [NPath 0 PColor PNone])]))]]
-       [NPath 0 PColor PNone])].
+       [FD 1 5 [PR 11 0 7 [] (Some (G 0 false None None [] [NGroup (G 0 false None None [] [NPath 0 true PColor PNone])]))]]
+       [NPath 0 true PColor PNone])].
 Theorem C07_feimage_href_refuted :
   exists o root, let t := with_collections root in
     NoDup (defs_of (write o t)) /\ exists r, In r (refs_of (write o t)) /\ ~ In r (defs_of (write o t)).
@@ -70,7 +73,7 @@ Theorem C07_span_paint_refuted :
     w_preserve_text o = true /\ exists r, In r (refs_of (write o t)) /\ ~ In r (defs_of (write o t)).
 Proof.
   exists {| w_prefix := 0; w_preserve_text := true |},
-         (G 0 false None None [] [NText 0 (G 0 false None None [] [NPath 0 (PLin 8 2) PNone]) [CH None [PP (PLin 7 1) PNone]]]).
+         (G 0 false None None [] [NText 0 (G 0 false None None [] [NPath 0 true (PLin 8 2) PNone]) [CH None [PP (PLin 7 1) PNone]]]).
   split; [reflexivity|]. exists (0, 1). split; vm_compute; [auto|intuition discriminate].
 Qed.
 Print Assumptions C07_span_paint_refuted.
@@ -115,11 +118,11 @@ Proof. exact no_overflow. Qed.
 Print Assumptions C07_write_num_no_overflow.
 
 (* ---- non-vacuity: the F08 witness shape (chains of three) is closed, with a prefix and without *)
-Definition leaf7 : group := G 0 false None None [] [NPath 0 PColor PNone].
+Definition leaf7 : group := G 0 false None None [] [NPath 0 true PColor PNone].
 Definition f08_root7 : group :=
   G 0 false None None []
-    [NGroup (G 0 false (Some (CD 1 11 (Some (CD 2 12 (Some (CD 3 13 None leaf7)) leaf7)) leaf7)) None [] [NPath 21 (PLin 9 19) PNone]);
-     NGroup (G 0 false None (Some (MD 4 14 (Some (MD 5 15 (Some (MD 6 16 None leaf7)) leaf7)) leaf7)) [] [NPath 22 PColor PNone])].
+    [NGroup (G 0 false (Some (CD 1 11 (Some (CD 2 12 (Some (CD 3 13 None leaf7)) leaf7)) leaf7)) None [] [NPath 21 true (PLin 9 19) PNone]);
+     NGroup (G 0 false None (Some (MD 4 14 (Some (MD 5 15 (Some (MD 6 16 None leaf7)) leaf7)) leaf7)) [] [NPath 22 true PColor PNone])].
 Example C07_nv_chain :
   chk_refs_closed (write {| w_prefix := 77; w_preserve_text := false |} (with_collections f08_root7)) = true /\
   length (refs_of (write {| w_prefix := 77; w_preserve_text := false |} (with_collections f08_root7))) = 7%nat.
@@ -128,3 +131,61 @@ Definition wn_is (p : Z) (x v : Q) : bool := match write_num p x with WOk w => Q
 Example C07_nv_num : wn_is 13 (3 # 2) (3 # 2) = true /\ wn_is 2 (1 # 3) (33 # 100) = true /\
                      wn_is 8 (inject_Z 3000000000) (inject_Z 3000000000) = true /\ wn_is 0 (-(5 # 2)) (-(3 # 1)) = true.
 Proof. vm_compute. repeat split; reflexivity. Qed.
+
+(* ---------------------------------------------------------------- strings: the xmlwriter layer (Model/XmlEscape.v; the searched
+   bytes, the spliced bytes and the loop step come from the xmlwriter source, the `&` pre-replacement from writer.rs) *)
+
+(* the in-place loop `while let Some(idx) = buf[start..].position(c) { splice(i..i+1, rep); start = i + len(rep) }` replaces every
+   occurrence in the appended string exactly once and leaves what was already in the buffer alone - any buffer, any string,
+   also when the replacement contains the searched byte *)
+Theorem C07_escape_loop_is_replace : forall c rep pre s,
+  xw_escape_in (c, rep, List.length rep) pre s = pre ++ replace_all c rep s.
+Proof. exact xw_escape_in_replace. Qed.
+Print Assumptions C07_escape_loop_is_replace.
+
+(* span text: for ALL strings the written character data has no raw `<`, every `&` starts a predefined entity, and an XML
+   parser reads the original string back *)
+Theorem C07_text_escape_roundtrip : forall s, unescape (escape_text s) = s.
+Proof. exact text_roundtrip. Qed.
+Print Assumptions C07_text_escape_roundtrip.
+Theorem C07_text_escape_wf : forall s, char_data_wf (escape_text s) = true.
+Proof. exact text_wf. Qed.
+Print Assumptions C07_text_escape_wf.
+
+(* attribute values (ids, references, result names): for ALL strings and both quote options the value does not contain
+   the quote that terminates it *)
+Theorem C07_attr_escape_no_quote : forall sq s, has_byte (quote_byte sq) (escape_attr sq s) = false.
+Proof. exact attr_no_quote. Qed.
+Print Assumptions C07_attr_escape_no_quote.
+
+(* .. `&` and `<` are NOT escaped in attribute values (known class unescaped-xml-char, F42): refuted with the two witnesses
+   `a<b` (not well-formed) and `a&amp;b` (well-formed, but read back as `a&b`: the id silently changes) .. *)
+Theorem C07_attr_escape_refuted :
+  (exists s, attr_value_wf false (escape_attr false s) = false) /\
+  (exists s, attr_value_wf false (escape_attr false s) = true /\ unescape (escape_attr false s) <> s).
+Proof. exact attr_raw_special_refuted. Qed.
+Print Assumptions C07_attr_escape_refuted.
+
+(* .. and guarded: without these two bytes the value is a well-formed AttValue that reads back as itself *)
+Theorem C07_attr_escape_guarded : forall sq s,
+  has_byte 38 s = false -> has_byte 60 s = false ->
+  attr_value_wf sq (escape_attr sq s) = true /\ unescape (escape_attr sq s) = s.
+Proof. exact attr_guarded. Qed.
+Print Assumptions C07_attr_escape_guarded.
+
+(* non-vacuity: the seven bytes  x & y < QUOT z QUOT  as text, and  q QUOT u APOS o  as a double- and a single-quoted attribute value *)
+Example C07_nv_escape :
+  escape_text [120; 38; 121; 60; 34; 122; 34] = [120; 38; 97; 109; 112; 59; 121; 38; 108; 116; 59; 34; 122; 34] /\
+  escape_attr false [113; 34; 117; 39; 111] = [113; 38; 113; 117; 111; 116; 59; 117; 39; 111] /\
+  escape_attr true [113; 34; 117; 39; 111] = [113; 34; 117; 38; 97; 112; 111; 115; 59; 111].
+Proof. vm_compute. auto. Qed.
+
+(* ---- `>` is never escaped, so the CDATA-section-close delimiter `]]>` in a span text is written raw; XML 1.0 forbids it in
+   character data (roxmltree and usvg's own parser reject the written text): refuted with the witness `]]>`, class
+   text-cdata-end (proposed).  Guarded: a text without `]]>` is written without it (escaping cannot create one). *)
+Theorem C07_text_cdata_end_refuted : exists s, has_cdata_end s = true /\ escape_text s = s.
+Proof. exact text_cdata_end_refuted. Qed.
+Print Assumptions C07_text_cdata_end_refuted.
+Theorem C07_text_cdata_end_guarded : forall s, has_cdata_end s = false -> has_cdata_end (escape_text s) = false.
+Proof. exact text_cdata_end_guarded. Qed.
+Print Assumptions C07_text_cdata_end_guarded.
